@@ -15,7 +15,7 @@ LEDGER_NOTE = ("Trusted: TLC, JSON bridge, the harness's read-only projection th
                "executor commitments, runtime equivocation evidence, incoming runtime messages, entity descriptors, vault methods, VRF "
                "proofs (also stale ones), structurally mutated bodies under authentic signatures, upgrade and cancel-upgrade proposals, nodes "
                "without the validator role, consensus feature version 26.1 on for even seeds; insecure and VRF beacon backends. Key-manager methods, "
-               "ProveFreshness, messages emitted by runtimes and TEE runtimes are not generated.")
+               "governance messages emitted by runtimes and TEE runtimes are not generated (staking messages of runtimes are).")
 
 CHECKS = {
     "C04": (
